@@ -5,7 +5,8 @@ from . import c04
 
 RULE = ('as C04 (generated spec x valid values); oracle: json.loads(json_encode(v)) and '
         'json_compat_obj_encode(v) equal, as JSON values, the output of a reference encoder written '
-        'from docs/json_serializer.rst and driven by the model (no stone code); non-trivial = value '
+        'from docs/json_serializer.rst and driven by the model (no stone code); every value that holds '
+        'timestamps is encoded a second time with them given as timezone-aware UTC datetimes; non-trivial = value '
         'through a union, subtype or container; distinct by (type, value) hash.')
 ASSUMPTIONS = ['Object key order is not judged; numbers are compared numerically.',
                'A struct that is a listed subtype but is referenced by its own name is expected without .tag.']
